@@ -9,8 +9,19 @@ use xml_schema_generator::{extend_struct, into_struct, Element, ParserError};
 
 pub enum Step {
     Ok(Element<String>),
-    Err(String),
+    /// the error's `Display` text, and what the error value carries (read off the public enum, whatever `Display` prints)
+    Err(String, String),
     Panic(String),
+}
+
+/// what a `ParserError` carries: `Q|<position>|<Debug of the reader's error>`, `U|<the UTF-8 error>`, `A|<the attribute error>`, `P`
+pub fn carried(e: &ParserError) -> String {
+    match e {
+        ParserError::QuickXmlError(pos, inner) => format!("Q|{}|{:?}", pos, inner),
+        ParserError::FromUtf8Error(inner) => format!("U|{}", inner),
+        ParserError::AttrError(inner) => format!("A|{}", inner),
+        ParserError::ParsingError(_) => "P".to_string(),
+    }
 }
 
 fn panic_msg(p: Box<dyn std::any::Any + Send>) -> String {
@@ -46,7 +57,7 @@ pub fn step(bytes: &[u8], cfg: ReaderCfg, prev: Option<&Element<String>>) -> Ste
     let prev = prev.cloned();
     match catch_unwind(AssertUnwindSafe(|| call(bytes, cfg, prev))) {
         Ok(Ok(e)) => Step::Ok(e),
-        Ok(Err(e)) => Step::Err(e.to_string()),
+        Ok(Err(e)) => Step::Err(e.to_string(), carried(&e)),
         Err(p) => Step::Panic(panic_msg(p)),
     }
 }
@@ -65,7 +76,7 @@ pub fn tree_tokens(e: &Element<String>) -> Result<(String, debugparse::DElem), S
 pub fn result_tokens(s: &Step) -> Result<String, String> {
     match s {
         Step::Ok(e) => Ok(format!("OK {}", tree_tokens(e)?.0)),
-        Step::Err(m) => Ok(format!("ER {}", enc(m))),
+        Step::Err(m, c) => Ok(format!("ER {} {}", enc(m), enc(c))),
         Step::Panic(m) => Err(format!("panic: {}", m)),
     }
 }
